@@ -391,9 +391,15 @@ def compare(d0, d1, what):
                 if (isinstance(v, tuple) and isinstance(w, tuple) and len(v) == 3 and len(w) == 3 and {v[0], w[0]} == {"i", "f"}
                         and {"i", "f"} <= {o["params"][pn][0] for o in d0.values() if o["type"] == a["type"]
                                            and isinstance(o["params"].get(pn), tuple) and len(o["params"][pn]) == 3}):
-                    # the class column mixes ints and floats (C05 F6c): numpy promotes it to float, or - when a None is present -
-                    # the first value's type is forced on all
-                    key = "int-reads-back-as-float"
+                    # the class column mixes ints and floats (C05 F6c): numpy promotes it to float (since fix 045c8d0 also when a
+                    # None is present). Known key ONLY for a change of kind with equal value (3 <-> 3.0); a change of VALUE
+                    # (3.5 -> 3, the truncation repaired by 045c8d0) has its own key and is a violation
+                    def _numval(t):
+                        return [float(x) if t[0] == "i" else _decode(x) for x in t[2]]
+                    if v[1] == w[1] and _numval(v) == _numval(w):
+                        key = "int-reads-back-as-float"
+                    elif v[0] == "f" and w[0] == "i":
+                        key = "float-truncated-in-mixed-column-with-none"
                 elif (isinstance(v, tuple) and isinstance(w, tuple) and len(v) == 3 and len(w) == 3 and v[0] == "i" and w[0] == "f"
                         and v[1] == w[1] and all(str(fcode(float(x))) == str(y) for x, y in zip(v[2], w[2]))):
                     key = "int-reads-back-as-float"
@@ -1121,6 +1127,15 @@ def synthetic_layouts(ctx, req, impl, cases):
 
 
 # --------------------------------------------------------------------------- excluded points / known findings
+def _layout_order(root):
+    """objects below root in the order the layout lists them (depth-first over sorted children)"""
+    out = []
+    for k in sorted(list(root)):
+        out.append(k)
+        out.extend(_layout_order(k))
+    return out
+
+
 def excluded_points(ctx, req, impl, cases):
     from armi.reactor import grids
     from armi.reactor.blocks import Block
@@ -1188,6 +1203,23 @@ def excluded_points(ctx, req, impl, cases):
             if done:
                 break
     ctx.count("excluded point: no-default parameter assigned on one object of its class")
+    # a class column with an int FIRST, a None, and fractional floats (truncated to ints before fix 045c8d0): the floats
+    # must read back unchanged; the leading int may come back as float (known kind-only key)
+    with silence(), contextlib.suppress(LoadFailed, WriteRejected):
+        from armi.reactor.blocks import Block as _B
+        o, r = load_fixture("c5g7")
+        objs = all_objects(r)
+        order = [c for c in [r] + [x for x in _layout_order(r)] if isinstance(c, _B)]
+        klass = type(order[0])
+        order = [b for b in order if type(b) is klass]
+        idx = {id(c): i for i, c in enumerate(objs)}
+        ops = []
+        for n, b in enumerate(order):
+            val = 3 if n == 0 else None if n == 1 else 3.5 + n
+            b.p.timeToLimit = val
+            ops.append(["setparam", idx[id(b)], "timeToLimit", val])
+        roundtrip_checks(ctx, "c5g7", o, r, ops, "int-none-float", deep=False)
+        ctx.count("excluded point: class column [int, None, fractional floats...] (int first in layout order)")
     # theoretical-density fractions equal to "special" constants on a material whose own default is not 1.0 (B4C: 0.9):
     # exactly 1.0, the default itself, another value; and 1.0 / 0.9 on a unit-default material. Checked incl. save-of-load.
     with silence(), contextlib.suppress(LoadFailed, WriteRejected):
